@@ -1047,7 +1047,7 @@ impl RecipeGen {
                 60..=61 => SpacedTerminated(sub(rng), sub(rng)),
                 62..=67 => Or(sub(rng), sub(rng)),
                 68..=75 => {
-                    if !fl.no_marks && rng.gen_bool(0.4) {
+                    if !fl.no_marks && d >= 3 && rng.gen_bool(0.5) {
                         // the library's documented idiom: intersect with a marking transducer
                         let marker =
                             List(Box::new(Mark(Box::new(AnyByte), self.markfn(rng))));
